@@ -1,0 +1,55 @@
+//go:build verif
+// +build verif
+
+package simhook
+
+import "io"
+
+// Enabled reports whether the simulator seams are compiled in.
+const Enabled = true
+
+// The simulator installs these before any task starts; nil means "not simulated".
+var (
+	YieldFn        func(site int, key uintptr)
+	AcquireFn      func(lock int)
+	ReleaseFn      func(lock int)
+	FaultFn        func(site int, key, arg uintptr) error
+	WrapReaderAtFn func(r io.ReaderAt) io.ReaderAt
+)
+
+// Yield is a scheduling point of the simulator.
+func Yield(site int, key uintptr) {
+	if f := YieldFn; f != nil {
+		f(site, key)
+	}
+}
+
+// Acquire tells the lock model that the caller is about to take a real lock.
+func Acquire(lock int) {
+	if f := AcquireFn; f != nil {
+		f(lock)
+	}
+}
+
+// Release tells the lock model that the caller has released a real lock.
+func Release(lock int) {
+	if f := ReleaseFn; f != nil {
+		f(lock)
+	}
+}
+
+// Fault lets the simulator fail a system call.
+func Fault(site int, key, arg uintptr) error {
+	if f := FaultFn; f != nil {
+		return f(site, key, arg)
+	}
+	return nil
+}
+
+// WrapReaderAt lets the simulator observe and fail reads.
+func WrapReaderAt(r io.ReaderAt) io.ReaderAt {
+	if f := WrapReaderAtFn; f != nil {
+		return f(r)
+	}
+	return r
+}
